@@ -1,11 +1,148 @@
 import ShelxModel.JsonUtil
 import ShelxModel.C16
+import ShelxModel.Extracted.C16Slots
 open Lean Shelx.J
 
 namespace Shelx.Drv.C16
+open Shelx.C16 Shelx.Extracted
+
+def ofVal : Val → Json
+  | .none => Json.null
+  | .num r => ofRat r
+  | .nums l => ofRats l
+  | .other s => Json.mkObj [("other", Json.str s)]
+
+def ofGot : Option Val → Json
+  | none => Json.mkObj [("unset", Json.bool true)]
+  | some v => ofVal v
+
+def ofSpecVal : SpecVal → Json
+  | .given v => Json.mkObj [("given", ofVal v)]
+  | .omitted v => Json.mkObj [("omitted", ofVal v)]
+
+def errName : PyErr → String
+  | .IndexError => "IndexError" | .AttributeError => "AttributeError" | .ValueError => "ValueError"
+  | .TypeError => "TypeError" | .ParseError => "ParseError"
+
+def classOf (name : String) : Option CardSlots := slotTable.find? (fun c => c.name == name)
+
+/-- model of `Class(shx, spline)` for every class the check models: table-shaped ones through the regenerated
+    table, the residual ones through the hand-written functions -/
+def modelObj (cls : String) (e : Env) : Option (Except PyErr Obj) :=
+  match cls with
+  | "PART" => some (.ok (partModel e.ps))
+  | "LATT" => some (.ok (lattModel e.ps))
+  | "TWIN" => some (twinModel e.ps)
+  | "HTAB" => some (.ok (htabModel e.ps))
+  | "SUMP" => some (sumpModel e.ps)
+  | "LSCycles" =>
+    if e.ps.all isInt then
+      some (match lsInit false (e.ps.map pyInt) with
+        | .ok l => .ok [("number", .num l.cycles), ("_nrf", match l.nrf with | some x => .num x | none => .none),
+                        ("_nextra", match l.nextra with | some x => .num x | none => .none)]
+        | .error x => .error x)
+    else none
+  | _ => (classOf cls).map fun c => fill defsTable c e
+
+def defsCard : Option CardSlots := classOf "DEFS"
+
+def attrsOp (j : Json) : Except String Json := do
+  let kw ← strField j "kw"
+  let ps ← field j "ps" >>= rats
+  let qs : Option (List Rat) ← match fieldOpt j "defs" with
+    | none => pure none
+    | some d => (rats d).map some
+  let some sp := syntaxOf kw | err s!"C16: no syntax entry for {kw}"
+  -- the DEFS object, as the model builds it
+  let dobj : Option Obj := match qs, defsCard with
+    | some qs, some dc => match fill defsTable dc ⟨qs, none⟩ with
+      | .ok o => some o
+      | .error _ => none
+    | _, _ => none
+  let env : Env := ⟨ps, dobj⟩
+  let model : Json := match modelObj sp.cls env with
+    | none => Json.null
+    | some (.error x) => Json.mkObj [("raise", Json.str (errName x))]
+    | some (.ok o) => Json.mkObj (sp.params.map fun p => (p.attr, ofGot (o.get p.attr)))
+  let eff := effDefs qs
+  let spec := Json.mkObj (sp.positions.map fun pk => (pk.1.attr, ofSpecVal (specVal eff pk.1 pk.2 ps)))
+  let modelOk : Json := match modelObj sp.cls env with
+    | some (.ok o) => Json.bool (sp.positions.all fun pk => accepts (o.get pk.1.attr) (specVal eff pk.1 pk.2 ps))
+    | _ => Json.bool false
+  return Json.mkObj [("cls", Json.str sp.cls), ("table", Json.bool (classOf sp.cls).isSome), ("model", model), ("spec", spec),
+                     ("model_meets_spec", modelOk),
+                     ("form_ok", Json.bool ((formLens sp).contains ps.length || !sp.finite)),
+                     ("ints_ok", Json.bool (intsOK sp ps))]
+
+def ofDflt : Dflt → Json
+  | .req => Json.str "req"
+  | .notGiven => Json.str "notGiven"
+  | .const v => Json.mkObj [("const", ofVal v)]
+  | .defs f m => Json.mkObj [("defs", Json.str f), ("mult", ofRat m)]
+
+def ofParam (p : Param) : Json :=
+  Json.mkObj [("doc", Json.str p.doc), ("attr", Json.str p.attr), ("width", ofNat p.width),
+              ("int", Json.bool (p.kind == .int)), ("dflt", ofDflt p.dflt)]
+
+def ofMismatch : Option (Nat × Bool × String) → Json
+  | none => Json.null
+  | some (n, hd, a) => Json.mkObj [("n", ofNat n), ("defs", Json.bool hd), ("attr", Json.str a)]
+
+def confOf (sp : Shelx.C16.Syntax) : Json :=
+  match classOf sp.cls with
+  | none => Json.null
+  | some c =>
+    if sp.finite then
+      Json.mkObj [("conforms", Json.bool (conforms defsTable c sp)), ("first_mismatch", ofMismatch (firstMismatch defsTable c sp))]
+    else Json.null
+
+/-- the syntax table (for the harness generator) and, per entry, whether the regenerated slot table conforms -/
+def syntaxOp : Json :=
+  Json.arr (syntaxTable.map fun sp =>
+    Json.mkObj [("kw", Json.str sp.kw), ("cls", Json.str sp.cls), ("names", Json.bool sp.names), ("finite", Json.bool sp.finite),
+                ("forms", Json.arr ((formLens sp).map ofNat).toArray), ("table", confOf sp),
+                ("params", Json.arr (sp.params.map ofParam).toArray)]).toArray
+
+def optInt : Option Int → Json
+  | none => Json.null
+  | some i => ofInt i
+
+def lsOp (j : Json) : Except String Json := do
+  let cgls ← boolField j "cgls"
+  let ps ← field j "ps" >>= ints
+  let n ← intField j "n"
+  match lsInit cgls ps with
+  | .error x => return Json.mkObj [("raise", Json.str (errName x))]
+  | .ok l =>
+    let toks := lsTokens { l with cycles := n }
+    let spec := (n, l.nrf.getD 0, l.nextra.getD 0)
+    return Json.mkObj [("tokens", ofInts toks), ("spec", ofInts [spec.1, spec.2.1, spec.2.2]),
+                       ("model_denotes", match lsDenotes toks with
+                         | some (a, b, c) => ofInts [a, b, c]
+                         | none => Json.null)]
+
+def wOf (l : List Rat) : Except String W :=
+  match l with
+  | [a, b, c, d, e, f] => .ok ⟨a, b, c, d, e, f⟩
+  | _ => err "C16: wght needs six values"
+
+def wghtOp (j : Json) : Except String Json := do
+  let cur ← (field j "cur" >>= rats) >>= wOf
+  let sug ← (field j "sug" >>= rats) >>= wOf
+  let w := updateWeight cur sug
+  return Json.mkObj [("tokens", ofRats (wghtTokens w)), ("spec", ofRats [sug.a, sug.b, sug.c, sug.d, sug.e, sug.f]),
+                     ("model_denotes", match wghtDenotes (wghtTokens w) with
+                       | some x => ofRats [x.a, x.b, x.c, x.d, x.e, x.f]
+                       | none => Json.null)]
 
 def handle (j : Json) : Except String Json := do
   let op ← strField j "op"
-  err s!"C16: unknown op {op}"
+  match op with
+  | "attrs" => attrsOp j
+  | "syntax" => return syntaxOp
+  | "residual" => return Json.arr (residualClasses.map fun (n, r) => Json.mkObj [("cls", Json.str n), ("stmts", ofStrs r)]).toArray
+  | "ls_set" => lsOp j
+  | "wght" => wghtOp j
+  | _ => err s!"C16: unknown op {op}"
 
 end Shelx.Drv.C16
